@@ -1,6 +1,7 @@
 package main
 
 import (
+	"context"
 	"encoding/binary"
 	"fmt"
 	"math/rand"
@@ -36,7 +37,7 @@ type reqRec struct {
 // own value and comes after the local apply, a Dropped/Rejected proposal is
 // never applied.
 func requestsMode(r *common.Run, sk *sink) {
-	r.SetRule("each case = one 3-host cluster (PRNG: NotifyCommit, store, state machine kind) with 12 goroutines issuing Propose / ReadIndex / config change / RequestSnapshot / QueryRaftLog with timeouts of 1-4 ticks up to 1s, half of the requests released and re-issued at once (pool reuse), under leader isolation, StopShard + restart and final NodeHost.Close under load, with delays injected at the commit-notification and read-index hand-over windows; every accepted request is watched to quiescence; non-trivial = expirations raced with applies, pooled objects were reused, and a stop/close happened with requests in flight; distinct by hash of the per-kind outcome histogram")
+	r.SetRule("each case = one 3-host cluster (PRNG: NotifyCommit, store, state machine kind) with 12 goroutines issuing Propose / ReadIndex / config change / RequestSnapshot / QueryRaftLog with timeouts of 1-4 ticks up to 1s, half of the requests released and re-issued at once (pool reuse), under leader isolation, StopShard + restart and final NodeHost.Close under load, with delays injected at the commit-notification and read-index hand-over windows; every accepted request is watched to quiescence; 4 more goroutines call SyncPropose with a context deadline tuned to the running completion latency (the ctx.Done() branch races the result) and require that a completed call carries the id of its own payload; non-trivial = expirations raced with applies, pooled objects were reused, and a stop/close happened with requests in flight; distinct by hash of the per-kind outcome histogram")
 	r.Assume("'never zero results' is decided at quiescence (after StopShard / NodeHost.Close returned), not by wall clock; lateness of Timeout results is only recorded")
 	n := r.Pick(6, 120)
 	for _, c := range r.MyCases(n) {
@@ -53,10 +54,16 @@ func runRequests(r *common.Run, sk *sink, caseNo int, rng *rand.Rand, seed int64
 	}
 	kind := []cluster.SMKind{cluster.Regular, cluster.Regular, cluster.Concurrent, cluster.OnDisk}[rng.Intn(4)]
 	winDelay := time.Duration(rng.Intn(3)) * time.Millisecond
+	var cancelAtApply sync.Map
 	fmt.Printf("requests case %d notifyCommit %v store %s sm %s windowDelay %v\n", caseNo, notify, store, kind, winDelay)
 	c := cluster.NewCluster(cluster.Options{Hosts: 3, Seed: seed, RTTMs: 10, Store: store, NotifyCommit: notify,
 		SMOpt: func(uint64, uint64) cluster.SMOptions {
-			return cluster.SMOptions{Kind: kind, RecordApply: true}
+			return cluster.SMOptions{Kind: kind, RecordApply: true, OnApply: func(host int, id uint64) {
+				// a client whose context ends exactly when its entry is applied on its host
+				if f, ok := cancelAtApply.Load([2]uint64{uint64(host), id}); ok {
+					f.(context.CancelFunc)()
+				}
+			}}
 		}}, sk)
 	if winDelay > 0 {
 		var n1, n2 uint32
@@ -209,6 +216,69 @@ func runRequests(r *common.Run, sk *sink, caseNo int, rng *rand.Rand, seed int64
 			for atomic.LoadInt32(&stopFlag) == 0 {
 				issue(g, prng)
 				time.Sleep(time.Duration(prng.Intn(3000)) * time.Microsecond)
+			}
+		}(g)
+	}
+	// synchronous clients whose context expires about when the result is due: SyncPropose returns
+	// through its ctx.Done() branch while the result is being delivered, the request object goes
+	// back to the pool, the next request may get that object. A completed SyncPropose must carry
+	// the id of its own payload, and what it reports as completed must have been applied.
+	for g := 0; g < 4; g++ {
+		wg.Add(1)
+		go func(g int) {
+			defer wg.Done()
+			prng := rand.New(rand.NewSource(seed + 1000 + int64(g)*17))
+			lat := 3 * time.Millisecond // running estimate of the completion latency
+			for atomic.LoadInt32(&stopFlag) == 0 {
+				h := c.Hosts[prng.Intn(3)]
+				nh := h.NodeHost()
+				if nh == nil {
+					time.Sleep(5 * time.Millisecond)
+					continue
+				}
+				id := cluster.NewID()
+				to := time.Duration(float64(lat) * (0.6 + 0.8*prng.Float64()))
+				if to < 200*time.Microsecond {
+					to = 200 * time.Microsecond
+				}
+				atApply := prng.Intn(3) == 0
+				if atApply {
+					to = time.Second
+				}
+				ctx, cancel := context.WithTimeout(context.Background(), to)
+				if atApply {
+					cancelAtApply.Store([2]uint64{uint64(h.Index), id}, cancel)
+					sk.Count("sync_proposals_cancelled_at_apply", 1)
+				}
+				t0 := time.Now()
+				res, err := nh.SyncPropose(ctx, nh.GetNoOPSession(shardID), cluster.MakeCmd(byte(prng.Intn(2)), id))
+				d := time.Since(t0)
+				cancel()
+				if atApply {
+					cancelAtApply.Delete([2]uint64{uint64(h.Index), id})
+					if err == nil {
+						d = lat
+					} else {
+						err, d = nil, 0
+						continue
+					}
+				}
+				sk.Count("sync_proposals", 1)
+				if err == nil {
+					lat = (lat*7 + d) / 8
+					sk.Count("sync_proposals_completed", 1)
+					if len(res.Data) != 8 || binary.BigEndian.Uint64(res.Data) != id {
+						sk.Violation("C12", "result-of-another-request",
+							fmt.Sprintf("SyncPropose of payload %d on host %d returned a result that carries id %x (value %d)", id, h.Index, res.Data, res.Value),
+							map[string]interface{}{"case": caseNo, "id": id, "host": h.Index, "ctx_timeout_us": to.Microseconds(), "notify_commit": notify})
+					}
+				} else {
+					sk.Count("sync_proposals_failed_or_expired", 1)
+					if d < to+to/4 && d > to-to/4 {
+						sk.Count("sync_proposals_expired_close_to_their_deadline", 1)
+					}
+					lat = (lat*15 + 2*to) / 16
+				}
 			}
 		}(g)
 	}
